@@ -147,7 +147,7 @@ std::string Exec::resolve_name(const std::string &s) {
     std::string base = (k < 0 || w.C(k).unique.empty()) ? std::string(":0.0") : w.C(k).unique;
     size_t plus = s.find('+');
     if (plus != std::string::npos) return base + s.substr(plus + 1);
-    if (s.back() == '-' && base.size() > 3) return base.substr(0, base.size() - 1);
+    if (s.back() == '-' && base.size() > 3 && base[base.size() - 2] != '.') return base.substr(0, base.size() - 1);   // (stays a valid name)
     return base;
   }
   return s;
